@@ -1132,6 +1132,29 @@ def check_column(w, texts):
         back = [norm(parse(t)) for t in ser2]
         orig = [norm(parse(t)) for t in texts]
         w.check(back == orig, "C09.column.roundtrip", case, observed=list(ser2)[:5], expected=list(texts)[:5])
+        # the same columns written in another letter case (tag names, Def and Def-expand included, are case-insensitive): the column-wise
+        # operations still agree with the object-wise ones, as a Series and as a DataFrame column
+        for how in ("lower", "upper", "swapcase"):
+            try:
+                v_exp = [getattr(t, how)() for t in expected_exp]
+                v_def = [getattr(t, how)() for t in texts]
+                want_shr = [str(HedString(t, sch, dd).shrink_defs()) for t in v_exp]
+                want_exp = [str(HedString(t, sch, dd).expand_defs()) for t in v_def]
+            except Exception:  # noqa  (the object-wise operation does not take this spelling: nothing to compare with)
+                continue
+            c2 = dict(case, letter_case=how)
+            s3 = pd.Series(list(v_exp))
+            df_util.shrink_defs(s3, sch)
+            d3 = pd.DataFrame({"HED": list(v_exp), "other": list(v_exp)})
+            df_util.shrink_defs(d3, sch, columns=["HED"])
+            w.check(list(s3) == want_shr and list(d3["HED"]) == want_shr and list(d3["other"]) == v_exp,
+                    "C09.column.shrink_agrees_with_object", c2, observed=[list(s3)[:5], list(d3["HED"])[:5]], expected=want_shr[:5])
+            s4 = pd.Series(list(v_def))
+            df_util.expand_defs(s4, sch, dd)
+            d4 = pd.DataFrame({"HED": list(v_def), "other": list(v_def)})
+            df_util.expand_defs(d4, sch, dd, columns=["HED"])
+            w.check(list(s4) == want_exp and list(d4["HED"]) == want_exp and list(d4["other"]) == v_def,
+                    "C09.column.expand_agrees_with_object", c2, observed=[list(s4)[:5], list(d4["HED"])[:5]], expected=want_exp[:5])
     except Exception as e:  # noqa
         w.fail("C09.column.total", case, observed=f"{type(e).__name__}: {str(e)[:200]}", expected="no exception")
 
